@@ -38,9 +38,11 @@ func TestMain(m *testing.M) {
 			"MaxActiveTransactions window, full or digest-only form), structure-aware alterations of the export (every length, count, flag, header field, key/value/metadata byte; forged chain links) " +
 			"delivered alone or racing with the honest export, with integrity checks on and off, DiscardPrecommittedTxsSince, " +
 			"AllowCommitUpto, close/reopen; every step is followed by the comparison of the replica with the primary. Database level: a primary with synchronous replication (1-3 acks) " +
-			"and 1-3 replica databases, the harness playing the replicator step by step while writers block in Set. " +
+			"and 1-3 replica databases, the harness playing the replicator step by step while writers block in Set; and a primary switch (generated: transactions before the switch, " +
+			"precommitted-only transactions of the old primary held by one stale replica, which replica is promoted, how far the new primary advances, when the stale replica connects), " +
+			"the harness playing the replicator including the discard on 'replica precommit state diverged'. " +
 			"NON-TRIVIAL (store level): the schedule of at least one replica contains >=1 out-of-order or duplicated delivery AND >=1 refused delivery followed by a successful catch-up; " +
-			"(database level): at least one step at which fewer than syncAcks replicas held a transaction the primary had precommitted. DISTINCT by hash of (configurations, history shape, schedule).",
+			"(database level): at least one step at which fewer than syncAcks replicas held a transaction the primary had precommitted; (primary switch): the stale replica's uncommitted tail lies at or below the new primary's commit point when it connects. DISTINCT by hash of (configurations, history shape, schedule).",
 		Assumptions: []string{
 			"SHA-256 is collision resistant: equal Alh / Eh means equal header and entry digests (values are compared byte by byte in addition)",
 			"an export is delivered to ReplicateTx either honest or altered by the harness; with skipIntegrityCheck=true an altered export may be accepted (that is what the flag means): only 'no effect when refused' and the internal consistency of the replica are asserted then, and the replica is treated as diverged",
@@ -50,7 +52,7 @@ func TestMain(m *testing.M) {
 			"DiscardPrecommittedTxsSince does not truncate the tx log (documented: 'if the store is reopened some precommitted transactions may be reloaded. Discarding may need to be redone after re-opening the store'): after a restart of a replica that discarded above its committed id the harness acts like the replicator (discards the tail that is not the primary's again, delivers the stream again) and asserts only that the stream is then accepted and the final state is the primary's; transactions precommitted after the discard may be missing after such a restart",
 			"out of order / concurrently, an honest export may be refused with errors other than the documented ones (e.g. after a discard the in-memory precommit watcher is not moved back, so a delivery that should wait fails at once): the replicator retries, so only 'a refusal has no effect' and 'in-order delivery on an idle replica succeeds' are asserted",
 			"an export refused with 'buffer is full' (window of uncommitted transactions exhausted) has already been written after the last precommitted transaction and is found precommitted after a restart: tolerated, because it is a transaction the replica would have accepted with room in the window (it matters only together with K7a / skipIntegrityCheck)",
-			"store level has no live primary: 'a replica commits only after the primary did' and the acknowledgement rule are checked at database level; the database-level test does not restart the primary, does not discard and does not alter exports",
+			"store level has no live primary: 'a replica commits only after the primary did' and the acknowledgement rule are checked at database level; the database-level tests do not restart a primary and do not alter exports; the promoted replica of the primary-switch scenario holds no uncommitted transaction of the old primary",
 			"pkg/replication's replicator and the gRPC stream are only exercised by the thorough-tier smoke run (TestE2EReplicatorSmoke); if loopback sockets are unavailable it is reported as skipped, never as a pass",
 			"liveness bounds (60 s per round, 30 s for a commit/indexing to become visible) only guard against hangs; no outcome depends on the wall clock",
 		},
